@@ -37,6 +37,9 @@ def zsort(kind):
     return {"int": I, "real": R, "bool": B, "float": FL}[kind]
 
 
+CARD = z3.Function("card", z3.ArraySort(I, B), I)     # cardinality of a finite set (len of a Python set): trusted
+
+
 def is_fl(v):
     return is_z3(v) and v.sort() == FL
 
@@ -61,13 +64,14 @@ def arr_sort(kind, ndim):
 
 # ---------------------------------------------------------------------------------------------------------------------
 class HeapObj:
-    __slots__ = ("arr", "shape", "elem", "ndim", "kind")
+    __slots__ = ("arr", "shape", "elem", "ndim", "kind", "dom")
 
-    def __init__(self, arr, shape, elem, ndim, kind="arr"):
+    def __init__(self, arr, shape, elem, ndim, kind="arr", dom=None):
         self.arr, self.shape, self.elem, self.ndim, self.kind = arr, tuple(shape), elem, ndim, kind
+        self.dom = dom      # dicts: key-membership array (arr holds the values)
 
     def replace(self, **kw):
-        o = HeapObj(self.arr, self.shape, self.elem, self.ndim, self.kind)
+        o = HeapObj(self.arr, self.shape, self.elem, self.ndim, self.kind, self.dom)
         for k, v in kw.items():
             setattr(o, k, v)
         return o
@@ -489,6 +493,8 @@ class Engine:
                     m = self.sel(st, right, [to_z3(left[0]), to_z3(left[1])])
                 elif self.is_set(st, right) and not isinstance(left, (tuple, Ref, PyObj)):
                     m = self.sel(st, right, [to_z3(left)])
+                elif ho.kind == "dict" and not isinstance(left, (tuple, Ref, PyObj)):
+                    m = z3.Select(ho.dom, to_z3(left))
                 else:
                     raise Unsupported("membership test of this shape")
                 return m if isinstance(op, ast.In) else z3.Not(m)
@@ -531,6 +537,40 @@ class Engine:
     def ev_Tuple(self, node, st, guard):
         return tuple(self.ev(e, st, guard) for e in node.elts)
 
+    def ev_Dict(self, node, st, guard):
+        if node.keys:
+            raise Unsupported("non-empty dict literal")
+        base = "dict#%d" % next(_fresh)
+        st.heap[base] = HeapObj(None, [], None, 1, "dict", dom=z3.K(I, z3.BoolVal(False)))
+        return Ref(base)
+
+    def dict_val_arr(self, st, ref, like=None):
+        ho = st.heap[ref.base]
+        if ho.arr is None:
+            kind = "real" if (like is not None and is_real(like)) else "int"
+            ho = ho.replace(arr=fresh(ref.base + ".val", arr_sort(kind, 1)), elem=kind)
+            st.heap[ref.base] = ho
+        return ho
+
+    def ev_ListComp(self, node, st, guard):
+        # only the shape  [{Element(x) for x in b} for b in <list of sets>]  (elementwise copy of a list of sets;
+        # the Element constructor preserves identity: assumption A-elem)
+        if len(node.generators) == 1 and isinstance(node.elt, ast.SetComp) and len(node.elt.generators) == 1 \
+                and not node.generators[0].ifs and not node.elt.generators[0].ifs:
+            outer, inner = node.generators[0], node.elt.generators[0]
+            e = node.elt.elt
+            if isinstance(outer.target, ast.Name) and isinstance(inner.iter, ast.Name) and inner.iter.id == outer.target.id \
+                    and isinstance(inner.target, ast.Name) and isinstance(e, ast.Call) and isinstance(e.func, ast.Name) \
+                    and e.func.id == "Element" and len(e.args) == 1 and isinstance(e.args[0], ast.Name) \
+                    and e.args[0].id == inner.target.id:
+                src = self.ev(outer.iter, st, guard)
+                if isinstance(src, Ref) and st.heap[src.base].kind == "setlist" and not src.prefix:
+                    from pyvc import externals
+                    externals.USED.add("comprehension [{Element(x) for x in b} for b in buckets]: elementwise copy (A-elem)")
+                    ho = st.heap[src.base]
+                    return self.new_array(st, "copy", "bool", 2, shape=ho.shape, arr=ho.arr, kind="setlist")
+        raise Unsupported("list comprehension at line %s" % node.lineno)
+
     def ev_List(self, node, st, guard):
         if not node.elts:
             # a fresh growable list (element sort fixed by the first append)
@@ -572,6 +612,12 @@ class Engine:
             raise Unsupported("symbolic index into tuple")
         if not isinstance(base, Ref):
             raise Unsupported("subscript of non-array at line %s" % node.lineno)
+        if st.heap[base.base].kind == "dict":
+            key = to_z3(self.ev(sl, st, guard))
+            ho = self.dict_val_arr(st, base)
+            self.emit("%s.safety.key(%s)" % (self.fn_key.split("::")[-1], ast.unparse(node)), "safety", st,
+                      z3.Select(ho.dom, key), node.lineno, guard, note="dict lookup on a present key")
+            return z3.Select(ho.arr, key)
         if isinstance(sl, ast.Slice):
             raise Unsupported("slice at line %s" % node.lineno)
         if isinstance(sl, ast.Tuple) and len(sl.elts) == 2 and isinstance(sl.elts[0], ast.Slice) \
@@ -624,6 +670,12 @@ class Engine:
                 return to_bool(self.ev(node.args[0], st, guard)) == to_bool(self.ev(node.args[1], st, guard))
             if nm == "ite":
                 return self.ev_IfExp(ast.IfExp(node.args[0], node.args[1], node.args[2]), st, guard)
+            if nm == "has" and self.spec_depth > 0:
+                d = self.ev(node.args[0], st, guard)
+                return z3.Select(st.heap[d.base].dom, to_z3(self.ev(node.args[1], st, guard)))
+            if nm == "card" and self.spec_depth > 0:
+                sref = self.ev(node.args[0], st, guard)
+                return CARD(self.sel(st, sref))
             if nm == "choose" and self.spec_depth > 0:
                 lamn = node.args[0]
                 lo, hi = [to_z3(self.ev(a, st, guard)) for a in node.args[1:3]]
@@ -759,10 +811,11 @@ class Engine:
         for p, a in zip(lm.params, args):
             lst.env[p] = a
         if lm.induction is not None:
-            self.emit("lemma_call.%s.base" % lm.name, "lemma-pre", st,
+            self.emit("%s.lemma_call.%s.base" % (self.fn_key.split("::")[-1], lm.name), "lemma-pre", st,
                       to_z3(lst.env[lm.induction]) >= to_z3(self.evc(lm.base, lst)), guard=guard, note=lm.base)
         for hname, src in lm.requires.items():
-            self.emit("lemma_call.%s.%s" % (lm.name, hname), "lemma-pre", st, to_bool(self.evc(src, lst, guard)),
+            self.emit("%s.lemma_call.%s.%s" % (self.fn_key.split("::")[-1], lm.name, hname), "lemma-pre", st,
+                      to_bool(self.evc(src, lst, guard)),
                       guard=guard, note=src)
         self.lemmas_used.add(lm.name)
         if getattr(lm, "intro", None):
@@ -899,6 +952,12 @@ class Engine:
             base = self.ev(target.value, st)
             if not isinstance(base, Ref):
                 raise Unsupported("subscript store into non-array")
+            if st.heap[base.base].kind == "dict":
+                key = to_z3(self.ev(target.slice, st))
+                ho = self.dict_val_arr(st, base, like=val)
+                st.heap[base.base] = ho.replace(arr=z3.Store(ho.arr, key, coerce(val, ho.elem)),
+                                                dom=z3.Store(ho.dom, key, z3.BoolVal(True)))
+                return
             idx = self.ev(target.slice, st)
             idxs = list(idx) if isinstance(idx, tuple) else [idx]
             ref = base
@@ -1035,6 +1094,8 @@ class Engine:
                         if nm not in self.alias:
                             break
                         nm = self.alias[nm]
+                elif isinstance(root, ast.Attribute) and isinstance(root.value, ast.Name):
+                    bases.add("%s.%s" % (root.value.id, root.attr))      # an attribute of an object parameter
                 else:
                     raise Unsupported("store through a complex expression")
 
@@ -1094,6 +1155,11 @@ class Engine:
             seen.add(v.base)
             ho = st.heap[v.base]
             shape = ho.shape
+            if ho.kind == "dict":
+                ho = self.dict_val_arr(st, v)
+                st.heap[v.base] = ho.replace(arr=fresh("%s@%s" % (v.base, tag), ho.arr.sort()),
+                                             dom=fresh("%s.dom@%s" % (v.base, tag), ho.dom.sort()))
+                continue
             if ho.kind in ("list", "setlist"):
                 n_ = fresh("%s.len@%s" % (v.base, tag), I)
                 st.pc.append(n_ >= 0)
@@ -1250,7 +1316,38 @@ class Engine:
             seq = self.ev(it, st)
             if isinstance(seq, Ref) and self.is_set(st, seq):
                 return self.for_set(s, st, seq)
+            if isinstance(seq, Ref) and st.heap[seq.base].kind in ("setlist", "list") and not seq.prefix:
+                return self.for_list(s, st, seq)
         raise Unsupported("for over %s at line %s" % (ast.dump(it)[:40], s.lineno))
+
+    def for_list(self, s, st, seq):
+        """iteration over a list, in order; the ghost idx_<var> is the index of the current item"""
+        k, spec = self.loop_spec(s)
+        if spec is None:
+            raise ContractError("for loop #%d (line %d) over a list has no invariant in the sidecar" % (k, s.lineno))
+        v = s.target.id
+        g = "idx_" + v
+        st.env[g] = z3.IntVal(0)
+        base = seq.base
+
+        def bind(stt):
+            i = to_z3(stt.env[g])
+            ho = stt.heap[base]
+            stt.env[v] = Ref(base, (i,)) if ho.ndim > 1 else z3.Select(ho.arr, i)
+
+        def cond(stt):
+            bind(stt)
+            return to_z3(stt.env[g]) < stt.heap[base].shape[0]
+
+        def step(stt):
+            stt.env[g] = to_z3(stt.env[g]) + 1
+        auto = lambda stt: z3.And(0 <= to_z3(stt.env[g]), to_z3(stt.env[g]) <= stt.heap[base].shape[0])     # noqa: E731
+        res = self.cut_loop(s, st, k, spec, cond=cond, body=s.body, step=step, hidden={g: True},
+                            auto=("index", "0 <= idx <= len", auto))
+        for kind, s2, val in res:
+            if kind == "normal":
+                s2.env[v] = PyObj("undefined")
+        return res
 
     def is_set(self, st, ref):
         ho = st.heap[ref.base]
